@@ -116,6 +116,7 @@ func spec_decoded(path string, k int, v any) bool {
 // the mailbox name first, then one entry per record, in order — and every entry points back to this
 // mailbox.
 //@ func (*mbox).readIndex
+//@   attr holds=mb.RWMutex:r
 //@   requires mb.store != nil && !mb.indexLoaded && spec_listOK(mb) && len(mb.messages) == 0 && cap(mb.messages) == 0
 //@   modifies mb.messages, mb.indexLoaded, mb.name
 //@   ensures ret != nil ==> !mb.indexLoaded
@@ -130,7 +131,7 @@ func spec_decoded(path string, k int, v any) bool {
 //@   loop 1: invariant forall i int :: { mb.messages[i] } 0 <= i && i < len(mb.messages) ==> vcFresh(mb.messages[i])
 //@   loop 1: invariant[matchA] spec_entriesMatchA(mb)
 //@   loop 1: invariant[matchB] spec_entriesMatchB(mb)
-//@   serves C10 C07
+//@   serves C10 C07 C09
 
 // Getters.
 //@ func (*Message).ID
@@ -152,6 +153,7 @@ func spec_decoded(path string, k int, v any) bool {
 
 // getMessages: the loaded list, in order.
 //@ func (*mbox).getMessages
+//@   attr holds=mb.RWMutex:r
 //@   requires spec_mbInv(mb)
 //@   modifies mb.messages, mb.indexLoaded, mb.name
 //@   ensures ret1 == nil ==> spec_loaded(mb) && len(ret0) == len(mb.messages) &&
@@ -160,10 +162,11 @@ func spec_decoded(path string, k int, v any) bool {
 //@   loop 1: invariant 0 <= ridx && ridx <= len(mb.messages) && len(messages) == len(mb.messages) && vcFresh(messages) && spec_loaded(mb)
 //@   loop 1: invariant forall i int :: { messages[i] } 0 <= i && i < ridx ==> messages[i] != nil && messages[i].(*Message) == mb.messages[i]
 //@   loop 1: decreases len(mb.messages) - ridx
-//@   serves C07 C10
+//@   serves C07 C10 C09
 
 // getMessage: the first entry with that id ("latest": the last entry); ErrNotExist otherwise.
 //@ func (*mbox).getMessage
+//@   attr holds=mb.RWMutex:r
 //@   requires spec_mbInv(mb)
 //@   modifies mb.messages, mb.indexLoaded, mb.name
 //@   ensures[xor] (ret0 != nil) != (ret1 != nil)
@@ -175,7 +178,7 @@ func spec_decoded(path string, k int, v any) bool {
 //@   loop 1: invariant 0 <= ridx && ridx <= len(mb.messages) && spec_loaded(mb)
 //@   loop 1: invariant forall i int :: { mb.messages[i] } 0 <= i && i < ridx ==> mb.messages[i].Fid != id
 //@   loop 1: decreases len(mb.messages) - ridx
-//@   serves C07 C10 C14
+//@   serves C07 C10 C14 C09
 
 // rawPath: "<mailbox dir>/<id>.raw" — never the index file or its temporary (assumed: ids are
 // timestamps followed by a counter, the index is called index.gob).
@@ -195,6 +198,8 @@ func spec_decoded(path string, k int, v any) bool {
 // writeIndex persists the loaded list (or removes the mailbox directory when the list is empty).
 // Crash invariant R1: at every file-system step the index is absent or complete.
 //@ func (*mbox).writeIndex
+//@   attr holds=mb.RWMutex:w
+//@   attr fslock=1
 //@   requires spec_listOK(mb)
 //@   modifies ghost_exists(mb.path), ghost_exists(mb.indexPath), ghost_complete(mb.indexPath), ghost_items(mb.indexPath),
 //@      ghost_exists(mb.indexPath + ".tmp"), ghost_complete(mb.indexPath + ".tmp"), ghost_items(mb.indexPath + ".tmp"),
@@ -214,7 +219,7 @@ func spec_decoded(path string, k int, v any) bool {
 //@   loop 1: invariant 0 <= ridx && ridx <= len(mb.messages) && writer != nil && file != nil && enc != nil && spec_listOK(mb)
 //@   loop 1: invariant ghost_wcount(writer) == 1 + ridx && ghost_wfile(writer) == file && ghost_fpath(file) == tmpPath && tmpPath == mb.indexPath + ".tmp" && ghost_encw(enc).(*bufio.Writer) == writer && ghost_exists(tmpPath)
 //@   loop 1: decreases len(mb.messages) - ridx
-//@   serves C11 C10 C07
+//@   serves C11 C10 C07 C09
 
 // removeMessage: removes the first entry with that id from the index (the entries after it move up
 // by one, nothing else changes), emits one deleted event for it; ErrNotExist if there is none.
@@ -222,6 +227,8 @@ func spec_decoded(path string, k int, v any) bool {
 //@ pred spec_noID(p string, id string, n int) bool = forall i int :: { vcSeqAt(ghost_idxIDs(p), i) } 0 <= i && i < n ==> vcSeqAt(ghost_idxIDs(p), i) != id
 
 //@ func (*mbox).removeMessage
+//@   attr holds=mb.RWMutex:w
+//@   attr fslock=1
 //@   requires spec_mbInv(mb) && spec_listOK(mb)
 //@   modifies mb.messages, elems(mb.messages), mb.indexLoaded, mb.name, allof(ghost_exists), allof(ghost_complete), allof(ghost_items), allof(ghost_idxIDs), allof(ghost_idxSeen), ghost_nemitted(&mb.store.extHost.Events.AfterMessageDeleted), ghost_emitted(&mb.store.extHost.Events.AfterMessageDeleted)
 //@   ensures[stillSafe C11] spec_idxSafe(mb.indexPath) || !old(spec_idxSafe(mb.indexPath))
@@ -249,7 +256,7 @@ func spec_decoded(path string, k int, v any) bool {
 //@            vcSeqAt(vcElemsOf(mb.messages), vcOff(mb.messages)+t).Fid == vcSeqAt(ghost_idxIDs(mb.indexPath), t)
 //@   loop 1: after[shiftedBehind] msg != nil ==> forall u int :: { vcSeqAt(ghost_idxIDs(mb.indexPath), u) } ridx-1 < u && u <= len(mb.messages) ==>
 //@            vcSeqAt(vcElemsOf(mb.messages), vcOff(mb.messages)+u-1).Fid == vcSeqAt(ghost_idxIDs(mb.indexPath), u)
-//@   serves C07 C10 C11 C16
+//@   serves C07 C10 C11 C16 C09
 
 // The index file of a mailbox: a function of the store's mail path and the mailbox name only.
 //@ pred spec_indexPath(fs *Store, mailbox string) string = filepath.Join(filepath.Join(fs.mailPath, stringutil.HashMailboxName(mailbox)[0:3], stringutil.HashMailboxName(mailbox)[0:6], stringutil.HashMailboxName(mailbox)), indexFileName)
@@ -273,36 +280,43 @@ func spec_decoded(path string, k int, v any) bool {
 
 // purge: the mailbox has no index afterwards.
 //@ func (*mbox).purge
+//@   attr holds=mb.RWMutex:w
+//@   attr fslock=1
 //@   requires spec_listOK(mb)
 //@   modifies *
 //@   crashinv[indexReadable] spec_idxSafe(mb.indexPath) || !old(spec_idxSafe(mb.indexPath))
 //@   ensures ret == nil ==> spec_idxN(mb.indexPath) == 0
-//@   serves C07 C11
+//@   serves C07 C11 C09
 
 //@ func (*Store).GetMessage
+//@   attr fslock=1
 //@   requires spec_storeOK(fs)
 //@   modifies *
 //@   ensures[xor] (ret0 != nil) != (ret1 != nil)
-//@   serves C07 C14
+//@   serves C07 C14 C09
 //@ func (*Store).GetMessages
+//@   attr fslock=1
 //@   requires spec_storeOK(fs)
 //@   modifies *
 //@   ensures[refinesStore] (vcFresh(ret0) || ret0 == nil) && forall i int :: { ret0[i] } 0 <= i && i < len(ret0) ==> ret0[i] != nil
-//@   serves C07 C12 C13
+//@   serves C07 C12 C13 C09
 //@ func (*Store).RemoveMessage
+//@   attr fslock=1
 //@   requires spec_storeOK(fs)
 //@   modifies *
-//@   serves C07
+//@   serves C07 C09
 //@ func (*Store).PurgeMessages
+//@   attr fslock=1
 //@   requires spec_storeOK(fs)
 //@   modifies *
 //@   loop 1: invariant 0 <= ridx && ridx <= len(mb.messages) && spec_loaded(mb) && mb != nil && mb.RWMutex != nil
 //@   loop 1: invariant ghost_nemitted(&fs.extHost.Events.AfterMessageDeleted) == old(ghost_nemitted(&fs.extHost.Events.AfterMessageDeleted)) + ridx
 //@   loop 1: after[oneEventEach C16] ghost_nemitted(&fs.extHost.Events.AfterMessageDeleted) == old(ghost_nemitted(&fs.extHost.Events.AfterMessageDeleted)) + len(mb.messages)
-//@   serves C07 C16
+//@   serves C07 C16 C09
 
 // MarkSeen: a message that does not exist is ErrNotExist (and nothing is rewritten).
 //@ func (*Store).MarkSeen
+//@   attr fslock=1
 //@   requires spec_storeOK(fs)
 //@   modifies *
 //@   crashinv[indexReadable] true
@@ -310,7 +324,7 @@ func spec_decoded(path string, k int, v any) bool {
 //@   loop 1: invariant 0 <= ridx && ridx <= len(mb.messages) && spec_loaded(mb) && mb != nil && mb.RWMutex != nil
 //@   loop 1: invariant forall i int :: { vcSeqAt(ghost_idxIDs(mb.indexPath), i) } 0 <= i && i < ridx ==> vcSeqAt(ghost_idxIDs(mb.indexPath), i) != id
 //@   loop 1: decreases len(mb.messages) - ridx
-//@   serves C07
+//@   serves C07 C09
 
 // newMessage: a fresh record for this mailbox; with a cap the list is first cut to below the cap
 // (oldest entries first: always entry 0).
@@ -335,6 +349,7 @@ func spec_decoded(path string, k int, v any) bool {
 // AddMessage: the new record is the last entry of the index that is written; without a cap every
 // earlier entry keeps its place; with a cap the index never lists more than cap entries.
 //@ func (*Store).AddMessage
+//@   attr fslock=1
 //@   requires spec_storeOK(fs) && m != nil
 //@   modifies *
 //@   crashinv[indexReadable] spec_idxSafe(spec_indexPath(fs, m.Mailbox())) || !old(spec_idxSafe(spec_indexPath(fs, m.Mailbox())))
@@ -344,7 +359,7 @@ func spec_decoded(path string, k int, v any) bool {
 //@   ensures[noCapKeepsAll C07 C08 C10] err == nil && fs.messageCap <= 0 ==> spec_idxN(spec_indexPath(fs, m.Mailbox())) == old(spec_idxN(spec_indexPath(fs, m.Mailbox()))) + 1 &&
 //@      forall i int :: { vcSeqAt(ghost_idxIDs(spec_indexPath(fs, m.Mailbox())), i) } 0 <= i && i < old(spec_idxN(spec_indexPath(fs, m.Mailbox()))) ==>
 //@         vcSeqAt(ghost_idxIDs(spec_indexPath(fs, m.Mailbox())), i) == old(vcSeqAt(ghost_idxIDs(spec_indexPath(fs, m.Mailbox())), i))
-//@   serves C07 C08 C10 C11 C01
+//@   serves C07 C08 C10 C11 C01 C09
 
 // VisitMailboxes: f is applied to the list of every mailbox directory found.
 // (ASSUMED: the visitor is an arbitrary callback; the engine's havoc of the whole heap at a callback also
